@@ -113,4 +113,9 @@ Meaning(c, base) ==
             ELSE IF p # << >> /\ p[1] = 47 THEN p
             ELSE (IF base = <<47>> THEN <<47>> ELSE base \o <<47>>) \o p,
    date |-> ParseDate(c)]
+
+\* the location a path designates as a directory entry: trailing slashes do not count ("/x/dir/" is the entry "/x/dir")
+RECURSIVE StripTrail(_)
+StripTrail(p) == IF Len(p) > 1 /\ p[Len(p)] = 47 THEN StripTrail(SubSeq(p, 1, Len(p) - 1)) ELSE p
+SameEntry(p, q) == StripTrail(p) = StripTrail(q)
 =============================================================================
